@@ -25,7 +25,7 @@ ASSUMPTIONS = [
     "array elements (and members of objects inside arrays) avoid bool/float values equal to ints: the third-party jsonpatch library diffs arrays with Python ==",
 ]
 FLOORS = {"quick": {"fragments_applied": 3000, "patches_applied": 2000, "filters_applied": 1500, "glob_patterns": 2000, "chains": 300, "chains_with_descending_reload_prio": 100},
-          "thorough": {"fragments_applied": 150000, "patches_applied": 100000, "filters_applied": 70000, "glob_patterns": 100000, "chains": 15000, "chains_with_descending_reload_prio": 5000}}
+          "thorough": {"fragments_applied": 150000, "patches_applied": 100000, "filters_applied": 70000, "glob_patterns": 90000, "chains": 15000, "chains_with_descending_reload_prio": 5000}}
 KEYS = ["a", "b", "c", "a/b", "m~n", "x|y", "*", "0", "Ethernet0", "Ethernet4"]
 SCALARS = [0, 1, 2, True, False, None, 1.0, "s", "xyz", "", "1"]
 
